@@ -114,6 +114,7 @@ def int_range(dtype, cap=INT_CAP):
     """the values an integer image of this dtype is drawn from: the dtype's range, cut at +-cap"""
     ii = np.iinfo(dtype)
     return max(int(ii.min), -cap), min(int(ii.max), cap)
+BYTEORDERS = ["native"] * 7 + ["big"]  # one case in eight is stored in the non-native byte order
 MAX_ABS = 1e300  # |x| above ~9e307 overflows (a + b) in np.median of two pad values; squares of rounding noise may be inf
 
 
@@ -137,6 +138,9 @@ def build(case):
     dtype = np.dtype(case.get("dtype", "float64"))
     arr = np.array(case_values(case), dtype=np.float64).reshape(case["shape"]).astype(dtype)
     vals = [Fraction(int(v)) if dtype.kind in "iu" else Fraction(float(v)) for v in arr.ravel()]
+    if case.get("byteorder") == "big":  # the same values, stored most significant byte first (non-native here)
+        dtype = dtype.newbyteorder(">")
+        arr = arr.astype(dtype)
     lay = case["layout"]
     base = None
     if lay == "F":
@@ -461,6 +465,8 @@ class C13(Prop):
             return self.gen_ints(rng)
         if r < 0.63:
             return self.gen_history(rng)
+        if r < 0.68:
+            return self.gen_tie(rng)
         ndim = rng.choice([1, 2, 2])
         kind = rng.choice(["mean", "median"])
         if rng.random() < 0.5:
@@ -491,7 +497,7 @@ class C13(Prop):
                 "offset": rng.choice([0, 0, 0, 1000, 2 ** 20]), "block": block,
                 "block_int": len(set(block)) == 1 and rng.random() < 0.5,
                 "threshold": thr, "layout": rng.choice(["C", "C", "F", "strided"]), "gen": feats,
-                "readonly": rng.random() < 0.25}
+                "readonly": rng.random() < 0.25, "byteorder": rng.choice(BYTEORDERS)}
 
     # ------------------------------------------------------------------ float streams
     F32_THR = ["0", "0", 2.0 ** -20, 0.25, 0.5, 0.75, 1.0, 1.5, 2.0, 2.5, 3.0, 3.0, 5.0, 10.0, 2.0 ** 20, "inf", "inf"]
@@ -566,7 +572,7 @@ class C13(Prop):
                 "block_int": len(set(block)) == 1 and rng.random() < 0.5,
                 "threshold": thr if isinstance(thr, str) and thr == "inf" else hexf(float(thr)), "dtype": dtype,
                 "layout": rng.choice(["C", "C", "F", "strided", "reversed"]), "readonly": rng.random() < 0.3,
-                "gen": ["const:" + cls]}
+                "byteorder": rng.choice(BYTEORDERS), "gen": ["const:" + cls]}
 
     def gen_fgen(self, rng):
         ndim = rng.choice([1, 2, 2])
@@ -637,7 +643,8 @@ class C13(Prop):
         return {"stream": "fgen", "kind": kind, "shape": shape, "fdata": [hexf(v) for v in a.ravel()], "block": block,
                 "block_int": len(set(block)) == 1 and rng.random() < 0.5,
                 "threshold": thr if isinstance(thr, str) and thr == "inf" else hexf(float(thr)), "dtype": dtype,
-                "layout": rng.choice(["C", "C", "F", "strided", "reversed"]), "readonly": rng.random() < 0.3, "gen": feats}
+                "layout": rng.choice(["C", "C", "F", "strided", "reversed"]), "readonly": rng.random() < 0.3, "gen": feats,
+                "byteorder": rng.choice(BYTEORDERS)}
 
     # ------------------------------------------------------------------ float stream, high dynamic range
     def gen_hdr(self, rng):
@@ -732,7 +739,8 @@ class C13(Prop):
         return {"stream": "fgen", "kind": kind, "shape": shape, "fdata": [hexf(v) for v in a.ravel()], "block": block,
                 "block_int": len(set(block)) == 1 and rng.random() < 0.5,
                 "threshold": hexf(float(thr)), "dtype": dtype,
-                "layout": rng.choice(["C", "C", "F", "strided", "reversed"]), "readonly": rng.random() < 0.3, "gen": sorted(set(feats))}
+                "layout": rng.choice(["C", "C", "F", "strided", "reversed"]), "readonly": rng.random() < 0.3, "gen": sorted(set(feats)),
+                "byteorder": rng.choice(BYTEORDERS)}
 
     def hdr_targeted(self):
         """deterministic high-dynamic-range inputs: a gently varying signal / image with a glitch of 3e17, 2.5e13, 1e17
@@ -757,6 +765,42 @@ class C13(Prop):
             e = [1e-100 * (1 + 0.01 * ((5 * i) % 7)) for i in range(25)]
             e[0], e[12] = -4e-83, 6e-88
             yield {**base, "kind": kind, "shape": [25], "fdata": [hexf(v) for v in e], "block": [5], "threshold": hexf(2.0)}
+
+    # ------------------------------------------------------------------ pixels exactly on the decision boundary
+    def gen_tie(self, rng):
+        """mean filter, a window planted in integer noise whose statistics are all exactly representable: the neighbours are
+        half c-g, half c+g (their mean c, their standard deviation g), the pixel is c + N*f (window mean c + f, deviation
+        |f|(N-1)) and the threshold t = |f|(N-1)/g: the pixel is EXACTLY on the boundary and must be kept ('more than');
+        or one step inside / outside it.  Lean's meanDecisionExact confirms per pixel that a float evaluation is exact."""
+        ndim = rng.choice([1, 2, 2])
+        block, shape = self.gen_geometry(rng, ndim, [3, 3, 5, 5, 7, 9, 11] if ndim == 1 else [3, 3, 5, 7], 44 if ndim == 1 else 18)
+        for k in range(ndim):  # room for an interior pixel
+            shape[k] = max(shape[k], 2 * block[k] + 1 + rng.randint(0, 4))
+        nwin = int(np.prod(block))
+        while True:
+            tq = Fraction(rng.choice(["1/2", "3/4", "1", "5/4", "3/2", "2", "5/2", "3", "4", "6", "8", "1/4"]))
+            f = rng.choice([-1, 1]) * rng.randint(1, 6)
+            g = Fraction(abs(f) * (nwin - 1)) / tq
+            if g.denominator == 1 and 1 <= g <= 4000:
+                g = int(g)
+                break
+        c = rng.randint(-50, 50)
+        step = rng.choice(["on", "on", "on", "outside", "inside"])
+        # one unit of N further from / nearer to the window mean: deviation (|f| +- 1)(N-1)
+        f_used = f + (0 if step == "on" else (1 if f > 0 else -1) * (1 if step == "outside" else -1))
+        n = int(np.prod(shape))
+        a = np.array([rng.randint(-30, 30) for _ in range(n)], dtype=np.int64).reshape(shape)
+        centre = tuple(rng.randrange(b, s_ - b) for b, s_ in zip(block, shape))
+        sl = tuple(slice(q - b // 2, q + b // 2 + 1) for q, b in zip(centre, block))
+        half = [c - g] * ((nwin - 1) // 2) + [c + g] * ((nwin - 1) // 2)
+        rng.shuffle(half)
+        win = half[:nwin // 2] + [c + nwin * f_used] + half[nwin // 2:]
+        a[sl] = np.array(win, dtype=np.int64).reshape(block)
+        return {"kind": "mean", "shape": shape, "data": [int(v) for v in a.ravel()], "den": rng.choice([1, 1, 2, 4]),
+                "offset": rng.choice([0, 0, 1000, 2 ** 20]), "block": block,
+                "block_int": len(set(block)) == 1 and rng.random() < 0.5, "threshold": float(tq).hex(),
+                "layout": rng.choice(["C", "C", "F", "strided"]), "gen": ["tie-class", "tie-step:" + step],
+                "readonly": rng.random() < 0.25}
 
     # ------------------------------------------------------------------ integer images of every dtype
     def gen_ints(self, rng):
@@ -808,7 +852,8 @@ class C13(Prop):
         return {"stream": "fgen", "kind": kind, "shape": shape, "fdata": [hexf(float(int(v))) for v in a.ravel()], "block": block,
                 "block_int": len(set(block)) == 1 and rng.random() < 0.5,
                 "threshold": thr if isinstance(thr, str) and thr == "inf" else hexf(float(thr)), "dtype": dtype,
-                "layout": rng.choice(["C", "C", "F", "strided", "reversed"]), "readonly": rng.random() < 0.3, "gen": feats}
+                "layout": rng.choice(["C", "C", "F", "strided", "reversed"]), "readonly": rng.random() < 0.3, "gen": feats,
+                "byteorder": rng.choice(BYTEORDERS)}
 
     # ------------------------------------------------------------------ histories
     def gen_history(self, rng):
@@ -907,7 +952,7 @@ class C13(Prop):
             steps += [edit(a), call("A", kind, b0, thr()), edit(a), call("A", rng.choice([kind, other_kind]), rng.choice([b0, blk()]), t0)]
         return {"steps": steps, "shape": shape, "dtype": dtype, "layout": rng.choice(["C", "C", "C", "F", "strided"]),
                 "fdata": [hexf(float(v)) for v in a], "other": [hexf(float(v)) for v in b], "gen": ["history", "hist-pattern:" + pat],
-                "kind": kind, "block": b0}
+                "kind": kind, "block": b0, "byteorder": rng.choice(BYTEORDERS)}
 
     def history_targeted(self):
         """deterministic histories for both filters: filter, overwrite spikes in place, filter the same object again"""
@@ -1031,9 +1076,12 @@ class C13(Prop):
         sparse = n > SPARSE_ABOVE
         is_int = np.dtype(dtname).kind in "iu"
         # integer image: np.pad rounds the pad values (half to even) to the dtype; the mechanism model does the same
+        # the format pewlib computes in: float32 stays float32, integers are averaged in float64
+        p_bits, emin = FLOAT_DTYPES.get(dtname, FLOAT_DTYPES["float64"])
+        t_used = float(np.float32(t)) if dtname == "float32" else t  # a Python float times a float32 array is float32
         req = dict(kind=kind, shape=shape, data=[core.rat(v) for v in vals], block=block,
                    threshold=None if math.isinf(t) else core.rat(t), pad="rint" if is_int else "exact",
-                   rabs=bool(fmode and kind == "mean"))
+                   rabs=bool(fmode and kind == "mean"), p=p_bits, emin=emin)
         if sparse:
             changed = []
             if "raises" not in impl and impl["shape"] == shape:
@@ -1050,9 +1098,6 @@ class C13(Prop):
         abs_tol = 1e-12 * scale
         halves = [b // 2 for b in block]
         idx = np.indices(shape).reshape(len(shape), -1).T if n else []
-        # the format pewlib computes in: float32 stays float32, integers are averaged in float64
-        p_bits, emin = FLOAT_DTYPES.get(dtname, FLOAT_DTYPES["float64"])
-        t_used = float(np.float32(t)) if dtname == "float32" else t  # a Python float times a float32 array is float32
         ftol = a_loc = None
         if fmode:
             maxabs = max(abs(v) for v in vals)
@@ -1066,9 +1111,18 @@ class C13(Prop):
         def real_window(p, reach=1):  # no padded value within `reach` half-windows of pixel p
             return all(reach * h <= i < s - reach * h for i, h, s in zip(p, halves, shape))
 
+        n_fexact = [0, 0]  # decisions taken exactly by any float evaluation; of those, exactly on the boundary
+
+        def fexact(cell):
+            """Lean's meanDecisionExact: every number a float evaluation of this pixel's decision computes is a number of
+            the computing format - the exact decision is demanded, also exactly on the boundary ('more than')"""
+            return bool(cell.get("fexact")) and t_used == t
+
         def near(cell, p):
             """exact decision margin below the float tolerance -> either value is acceptable"""
             if cell["rhs"] is None:
+                return False
+            if fexact(cell):
                 return False
             lhs, rhs = unrat(cell["lhs"]), unrat(cell["rhs"])
             if lhs == 0 and (kind == "median" or real_window(p) or (rhs == 0 and t != 0)):
@@ -1092,6 +1146,8 @@ class C13(Prop):
                 corner = len(shape) == 2 and all(not (2 * h <= i < s_ - 2 * h) for i, h, s_ in zip(p, halves, shape))
                 is_r = abs(Fraction(v) - rv) <= ftol.repl_tol(kind, real, ra, a_loc[k], corner) if math.isfinite(v) else False
                 m = ftol.margin(kind, cell, real, a_loc[k], corner, None if m_loc is None else m_loc[k])
+                if fexact(cell):
+                    m = "out" if cell["outlier"] else "in"
                 if m == "near":
                     return is_x or is_r, True
                 return (is_r if m == "out" else is_x), False
@@ -1113,6 +1169,8 @@ class C13(Prop):
             feats.add(f"dtype:{dtname}->{impl.get('dtype', 'raises')}")
         if case.get("readonly"):
             feats.add("input:read-only")
+        if not x.dtype.isnative:
+            feats.add("byteorder:non-native")
         if case.get("offset"):
             feats.add("offset")
         if any(s == b for s, b in zip(shape, block)):
@@ -1188,6 +1246,10 @@ class C13(Prop):
                     s = spec_at[k]
                     if s["kind"] == "exact":
                         n_int += 1
+                        if fexact(s):
+                            n_fexact[0] += 1
+                            if s["rhs"] is not None and unrat(s["lhs"]) == unrat(s["rhs"]) != 0:
+                                n_fexact[1] += 1
                         ok, nr = ok_cell(out[k], s, p, k)
                         n_det += not nr
                         if not cmp_model:  # (only a large image can be without the mechanism)
@@ -1219,6 +1281,10 @@ class C13(Prop):
                         feats.add("determined:" + ("all" if n_det == n_int else ">=99%" if frac >= 0.99 else ">=90%" if frac >= 0.9
                                                     else "<90%"))
                         spec["interior_determined"] = [n_det, n_int]
+                if n_fexact[0]:
+                    feats.add("float-exact-decision")
+                if n_fexact[1]:
+                    feats.add("tie:exactly-on-the-boundary")
                 if n_repl_int:
                     feats.add("interior-replaced")
                 if n_repl_border:
@@ -1243,7 +1309,7 @@ class C13(Prop):
         impl_view = dict(impl)
         if "out" in impl_view and len(impl_view["out"]) > 64:
             impl_view["out"] = impl_view["out"][:64] + ["..."]
-        nontrivial = feats & {"interior-replaced", "border-replaced", "constant-image", "thr:zero", "thr:inf"}
+        nontrivial = feats & {"interior-replaced", "border-replaced", "constant-image", "thr:zero", "thr:inf", "tie:exactly-on-the-boundary"}
         return outcome(impl_view, model, spec, spec_ok=spec_ok, model_ok=model_ok,
                        undetermined=bool(nears) and spec_ok and model_ok,
                        features=feats if nontrivial else [], note=json.dumps(note) if note else "")
@@ -1260,7 +1326,8 @@ class C13(Prop):
         at the time of that call (the filters are functions of their arguments: nothing may survive a call)."""
         dtname = case.get("dtype", "float64")
         dtype = np.dtype(dtname)
-        first = {"stream": "fgen", "shape": case["shape"], "fdata": case["fdata"], "dtype": dtname, "layout": case["layout"]}
+        first = {"stream": "fgen", "shape": case["shape"], "fdata": case["fdata"], "dtype": dtname, "layout": case["layout"],
+                 "byteorder": case.get("byteorder", "native")}
         _, a_arr, a_base = build(first)
         _, b_arr, _ = build({**first, "fdata": case["other"], "layout": "C"})
         outs, feats = [], {"history"}
@@ -1396,6 +1463,8 @@ class C13(Prop):
                 yield {**case, "dtype": "float64"}
             if case.get("block_int"):
                 yield {**case, "block_int": False}
+            if case.get("byteorder") == "big":
+                yield {**case, "byteorder": "native"}
             return
         if len(case["data"]) > 1024:
             # a large image: every evaluation costs seconds, so cut geometrically (a half or an eighth of an axis from
